@@ -1006,3 +1006,35 @@ def rule_open_flag(db, chk, cfg, rule="OPEN.flag"):
     if n < 4:
         raise AnalysisBroken("OPEN.flag: only %d builder calls found under a test of outrec->is_open" % n)
     return n
+
+
+# ---------------------------------------------------------------------------
+# FLAG.sticky: "some open path has been added" is only ever switched on (C05)
+# ---------------------------------------------------------------------------
+
+def rule_sticky_open_flag(db, chk, cfg, rule="FLAG.sticky", flag="has_open_paths_"):
+    """has_open_paths_ gates the open-path logic of the sweep (IntersectEdges) and of the builders.  It means 'at least one open path has
+    been added since the last Clear()': every write outside Clear() / the member initialiser stores the literal `true`; only Clear()
+    stores `false`.  A write of a computed value (`flag = this_path_is_open`) lets a later closed path switch the open-path logic off
+    while open edges are in the sweep."""
+    n = 0
+    for f in db.funcs:
+        if f.is_pattern or f.body is None or f.cls not in ("ClipperBase", "Clipper64", "ClipperD"):
+            continue
+        for x in walk(f.body):
+            if x.get("kind") != "BinaryOperator" or x.get("opcode") != "=":
+                continue
+            l = _u(kids(x)[0])
+            if not (l.get("kind") == "MemberExpr" and l.get("name") == flag and (not kids(l) or _u(kids(l)[0]).get("kind") == "CXXThisExpr")):
+                continue
+            r = canon(kids(x)[1])
+            n += 1
+            ok = r == "true" or (r == "false" and f.name in ("Clear", "ClipperBase"))
+            chk.instance(rule, {"function": f.qual, "write": canon(x)[:50], "cfg": cfg}, ok=ok)
+            if not ok:
+                chk.violation(rule, f.qual, "%s|%s" % (flag, r[:30]), "%s: `%s` - the flag means 'an open path has been added since the last Clear()' and may only be "
+                              "switched on here; storing %s lets a later closed path switch the open-path logic off" % (f.qual, canon(x)[:60], "false" if r == "false" else "a computed value"),
+                              where(x), cfg=cfg)
+    if n < 3:
+        raise AnalysisBroken("FLAG.sticky: only %d writes of %s found" % (n, flag))
+    return n
